@@ -68,6 +68,17 @@ CHECKS = {
         'Trusted: Coq kernel + vm_compute; numpy slicing / fancy assignment / masks and deque.insert modelled functionally; dtype values rendered '
         'as integers (exact). Error class is compared only as error-vs-value (the property does not fix it). NZ hypothesis = assignments of non-zero values, as the property states.',
         '§4 C17'),
+    'C18': (
+        'Coq proof (helpers, exists_path and augment_* over the proved graph model; union of closures for any collection) + per-run vm_compute correspondence with src/hpotk/algorithm/_traversal.py, _augment.py',
+        'Machine-checked theorems for every graph built from an acyclic edge list, a bare graph or anything carrying one, CURIE or TermId sources: each '
+        'module-level helper returns exactly the (duplicate-free) set of the corresponding graph query plus the source iff asked; exists_path(a,b) is true '
+        'exactly when b is a strict ancestor of a; augmenting a single term equals the helper on it; augmenting ANY collection (empty, singleton, repeats, '
+        'overlapping closures) gives the union of the closures, with the terms themselves only when asked; unknown nodes, malformed sources and non-graph '
+        'arguments raise ValueError. Correspondence: all seven functions on enumerated + random DAGs, every node, all 2-subsets, random k-subsets, '
+        'list/tuple/set/frozenset, graph / GraphAware stub / MinimalOntology.',
+        'Trusted: as C01; isinstance dispatch modelled by constructor tags chosen by the harness. augment_with_descendants(single term) returned ancestors: '
+        'genuine defect fixed in /repo (fix: 1b293c0).',
+        '§4 C18'),
 }
 
 PLANNED = {}
